@@ -1069,6 +1069,19 @@ def gen_cases(tier, rng):
     for n in ((1, 2, 3) if quick else (1, 2, 3, 4)):
         for j, g in enumerate(_h_alphabet_graphs(n, tier)):
             cases.append(dict(kind="hx", g=g, nodes=None, its=False, name="hx-exh/%d/%d" % (n, j)))
+    # ... the same graphs with the optional 'hcount' key absent on heavy atoms whose count is 0 (the key is optional:
+    # h_to_implicit must start from 0, h_to_explicit must leave the atom alone)
+    nk = 0
+    for n in (2, 3):
+        for j, g in enumerate(_h_alphabet_graphs(n, tier)):
+            els = [a.get("element") for _, a in g["nodes"]]
+            if "H" in els and any(a.get("element") != "H" and a.get("hcount") == 0 for _, a in g["nodes"]):
+                g2 = {"nodes": [[i, {k: v for k, v in a.items() if not (k == "hcount" and v == 0 and a.get("element") != "H")}]
+                                for i, a in g["nodes"]], "edges": g["edges"]}
+                cases.append(dict(kind="hx", g=g2, nodes=None, its=False, name="hx-nokey/%d/%d" % (n, j)))
+                nk += 1
+                if quick and nk >= 120:
+                    break
     for k in range(250 if quick else 3000):
         n = rng.randint(1, 9)
         z = rng.random()
